@@ -3,7 +3,7 @@
 # through tools/seedtest_ns.sh (scratch worktree bind-mounted over /repo in a private mount namespace: /repo itself is
 # never modified, evidence and replays of these runs are discarded). Writes seeded/RESULTS.md.
 cd /verif
-out=seeded/RESULTS.md
+out=${OUT:-seeded/RESULTS.md}   # OUT: write a part of the matrix elsewhere (parallel lanes; VERIF_WORKERS limits the cores of a lane)
 echo "| seeded change | check | exit | violations | first violation key |" > $out.tmp
 echo "|---|---|---|---|---|" >> $out.tmp
 for d in seeded/C*-*/; do
